@@ -62,6 +62,13 @@ fn cycle_refs<T>(this: Link<T>) -> HashMap<Link<T>, usize> {
         for (&link, &strong) in links.iter() {
             #[cfg(cactusref_verif)]
             crate::verif::bump(&crate::verif::TRACE_SCANNED);
+            // Self-adoptions have no effect: a loopback link records that the
+            // `Rc` was adopted through its own handle, it is not an edge of the
+            // object graph. Tracing it would visit `node` a second time under
+            // a different key and double every count `node` contributes.
+            if let Kind::Loopback = link.kind() {
+                continue;
+            }
             if let Kind::Forward | Kind::Loopback = link.kind() {
                 cycle_owned_refs
                     .entry(link)
